@@ -15,8 +15,8 @@ from . import tlc, tlaval
 MOD_CHOICES = [(), (1,), (1,), (2,), (3,), (1, 2), (1, 1), (2, 3), (1, 3, 2)]
 
 
-def rand_leg(rng, mods, max_blocks=3, max_size=2):
-    nb = rng.randint(1, max_blocks)
+def rand_leg(rng, mods, max_blocks=3, max_size=2, min_blocks=1):
+    nb = rng.randint(min_blocks, max_blocks)
     sizes = [rng.randint(1, max_size) for _ in range(nb)]
     charges = []
     for _ in range(nb):
@@ -83,11 +83,16 @@ def rand_config(rng, max_size=40, kind_hint=None):
     """Two initial tensors that can interact: T2 shares/conjugates legs of T1."""
     for _ in range(200):
         mods = rng.choice(MOD_CHOICES)
+        if kind_hint is not None and kind_hint % 6 == 2:
+            mods = rng.choice([(3,), (1, 3), (3, 2)])  # profile 2: a Z_3 charge and a conjugate partner
+        if kind_hint is not None and kind_hint % 6 == 1 and not mods:
+            mods = (1,)
         if kind_hint is not None and kind_hint % 6 == 4:
             mods = ()  # profile 4: no charges -> single-block tensors (fast paths), with a pipe partner
         r1 = rng.choice([2, 3, 3])
         single = kind_hint is not None and kind_hint % 6 == 4
-        legs1 = [rand_leg(rng, mods, max_blocks=1 if single else 3, max_size=3 if single else 2) for _ in range(r1)]
+        disjoint = kind_hint is not None and kind_hint % 6 == 1
+        legs1 = [rand_leg(rng, mods, max_blocks=1 if single else 3, max_size=3 if single else 2, min_blocks=2 if disjoint else 1) for _ in range(r1)]
         if rng.random() < 0.3:
             # make a traceable pair
             legs1[-1] = conj_leg(legs1[0])
@@ -104,7 +109,8 @@ def rand_config(rng, max_size=40, kind_hint=None):
             sel = rng.sample(range(r1), k)
             legs2 = [conj_leg(legs1[i]) for i in sel] + [rand_leg(rng, mods)]
             labels2 = [(labels1[i] + ['*']) if labels1[i] else [] for i in sel] + [['e']]
-            if rng.random() < 0.5:
+            reversed2 = rng.random() < 0.5
+            if reversed2:
                 legs2.reverse()
                 labels2.reverse()
         else:
@@ -140,6 +146,35 @@ def rand_config(rng, max_size=40, kind_hint=None):
             while perm == list(range(1, r1 + 1)):
                 perm = [x + 1 for x in rng.sample(range(r1), r1)]
             t2['transpose_perm'] = perm
+        import itertools
+
+        def _allowed(t, legs):
+            return [b for b in itertools.product(*[range(len(l['sizes'])) for l in legs])
+                    if make_valid([sum(l['qconj'] * l['charges'][bi][k] for l, bi in zip(legs, b)) for k in range(len(mods))], mods) == t['qtotal']]
+        if 0.4 <= kind < 0.8 and kind_hint is not None and kind_hint % 6 == 1:
+            # contractible partner whose stored blocks never meet those of T1 on the first contracted leg:
+            # tensordot then yields a tensor without any stored block (dtype / empty-result paths)
+            j1 = sel[0]
+            j2 = (len(legs2) - 1) if reversed2 else 0
+            nbl = len(legs1[j1]['sizes'])
+            ok = False
+            if nbl >= 2:
+                S = set(rng.sample(range(nbl), nbl // 2))
+                a1, a2 = _allowed(t1, legs1), _allowed(t2, legs2)
+                m1 = [b for b in a1 if b[j1] not in S]
+                m2 = [b for b in a2 if b[j2] in S]
+                if 0 < len(m1) < len(a1) and 0 < len(m2) < len(a2):
+                    t1['missing'] = m1
+                    t2['missing'] = m2
+                    ok = True
+            if not ok:
+                continue  # try other legs / total charges
+        if kind >= 0.8 and kind_hint is not None and kind_hint % 6 == 2 and all(x == 0 for x in t1['qtotal']):
+            continue  # want a non-zero total charge here
+        if kind >= 0.8:
+            # conjugate partner: opposite total charge, so inner(a, b) / full tensordot are non-trivial
+            t2['qtotal'] = make_valid([-x for x in t1['qtotal']], mods)
+            t2['missing'] = [b for b in t1['missing'] if rng.random() < 0.5]
         # a third, small tensor (vector or thin matrix) contractible with a leg of T1: matvec-like products and
         # outer products stay small
         j = rng.randrange(r1)
@@ -255,14 +290,20 @@ def storage_variant(a, variant):
     return b
 
 
-def build_array(chinfo, t, dtype=None):
+DTYPE_VARIANTS = {0: (np.float64, np.complex128), 1: (np.float32, np.complex64), 2: (np.int64, np.complex128)}
+
+
+def build_array(chinfo, t, dtype=None, dtype_variant=0):
     import tenpy.linalg.np_conserved as npc
     legs = [build_leg(chinfo, l) for l in t['legs']]
     dense = dense_of(t)
     if dtype is None:
-        dtype = np.complex128 if np.any(dense.imag != 0) else np.float64
-    if dtype != np.complex128:
+        real_t, cplx_t = DTYPE_VARIANTS[dtype_variant]
+        dtype = cplx_t if np.any(dense.imag != 0) else real_t
+    if np.dtype(dtype).kind != 'c':
         dense = dense.real.astype(dtype)
+    else:
+        dense = dense.astype(dtype)
     labels = [render_label(l) for l in t['labels']]
     a = npc.Array.from_ndarray(dense, legs, dtype=dtype, qtotal=np.array(t['qtotal'], dtype=np.int64), labels=labels)
     # from_ndarray stores every allowed block; blocks that are entirely zero in the spec tensor are "missing":
